@@ -212,9 +212,18 @@ def leaf(draw, profiles, in_cds: bool, allow_minscore: bool = True) -> list:
 def expression(draw, profiles, depth: int, in_cds: bool = False) -> list:
     if depth <= 0:
         return draw(leaf(profiles, in_cds))
-    shape = draw(st.sampled_from(["leaf", "and", "or", "or", "and", "group", "cds"]))
+    shape = draw(st.sampled_from(["leaf", "and", "or", "or", "and", "group", "cds", "wrapped_not"]))
     if shape == "leaf":
         return draw(leaf(profiles, in_cds))
+    if shape == "wrapped_not":
+        # redundant parentheses around a negation, once or twice, themselves negated or not: not ((not a)), (not (a or b))
+        inner = draw(expression(profiles, depth - 1, in_cds))
+        if inner[0] in ("and", "or"):
+            inner = ["group", inner]
+        node = ["group", inner if inner[0] == "not" else ["not", inner]]
+        if draw(st.booleans()):
+            node = ["group", node]
+        return ["not", node] if draw(st.booleans()) else node
     if shape == "group":
         node: list = ["group", draw(expression(profiles, depth - 1, in_cds))]
         return ["not", node] if draw(st.booleans()) else node
